@@ -176,6 +176,15 @@ pub enum COp {
     Attach { who: String, slot: usize },
     /// the whitelist admin adds `who` to stage 0 / the list of the attached whitelist
     WlAddMember { who: String },
+    /// price-affecting admin calls
+    UpdateMintPrice { who: String, price: u128 },
+    /// vending only
+    UpdateDiscount { who: String, price: u128 },
+    /// vending only
+    RemoveDiscount { who: String },
+    UpdatePal { who: String, limit: u32 },
+    /// governance raises / lowers the factory's minimum mint price
+    SudoMinPrice { price: u128 },
 }
 
 #[derive(Clone, Debug, Serialize, Deserialize)]
@@ -375,6 +384,7 @@ trait World {
     /// instantiate a whitelist (admin and payer: CREATOR) and make it attachable as `slot`
     fn add_whitelist(&mut self, slot: usize, kind: Kind, msg: &Value, fee: u128) -> Result<Addr, String>;
     fn minter_config(&self) -> Value;
+    fn minter_addr(&self) -> String;
     fn mintable(&self) -> Option<u64>;
     fn mint_count(&self, who: &str) -> u64;
     fn balances_raw(&self) -> BTreeMap<(String, String), u128>;
@@ -388,6 +398,11 @@ trait World {
     fn update_end(&mut self, who: &str, t: T) -> Option<StepOut>;
     fn attach(&mut self, who: &str, slot: usize, wl: &Addr, kind: Kind) -> StepOut;
     fn exec_other(&mut self, who: &str, contract: &Addr, msg: &Value) -> bool;
+    fn update_mint_price(&mut self, who: &str, price: u128) -> StepOut;
+    fn update_discount(&mut self, who: &str, price: u128) -> Option<StepOut>;
+    fn remove_discount(&mut self, who: &str) -> Option<StepOut>;
+    fn update_pal(&mut self, who: &str, limit: u32) -> StepOut;
+    fn sudo_min_price(&mut self, price: u128);
 }
 
 fn instantiate_wl(app: &mut App, code_id: u64, msg: &Value, fee: u128) -> Result<Addr, String> {
@@ -449,6 +464,9 @@ impl World for VWorld {
     fn minter_config(&self) -> Value {
         self.0.minter_config()
     }
+    fn minter_addr(&self) -> String {
+        self.0.minter.to_string()
+    }
     fn mintable(&self) -> Option<u64> {
         Some(self.0.mintable())
     }
@@ -497,6 +515,21 @@ impl World for VWorld {
     fn exec_other(&mut self, who: &str, contract: &Addr, msg: &Value) -> bool {
         chain::exec(&mut self.0.app, who, contract, msg, &[]).is_ok()
     }
+    fn update_mint_price(&mut self, who: &str, price: u128) -> StepOut {
+        self.0.run(&Op::UpdateMintPrice { who: who.into(), price })
+    }
+    fn update_discount(&mut self, who: &str, price: u128) -> Option<StepOut> {
+        Some(self.0.run(&Op::UpdateDiscountPrice { who: who.into(), price }))
+    }
+    fn remove_discount(&mut self, who: &str) -> Option<StepOut> {
+        Some(self.0.run(&Op::RemoveDiscountPrice { who: who.into() }))
+    }
+    fn update_pal(&mut self, who: &str, limit: u32) -> StepOut {
+        self.0.run(&Op::UpdatePerAddressLimit { who: who.into(), limit })
+    }
+    fn sudo_min_price(&mut self, price: u128) {
+        self.0.run(&Op::SudoParams { min_price: Some(price), mint_fee_bps: None, airdrop_price: None, airdrop_fee_bps: None, offset: None, max_pal: None, shuffle_fee: None });
+    }
 }
 
 // ----- open edition -----
@@ -523,6 +556,9 @@ impl World for OWorld {
     }
     fn minter_config(&self) -> Value {
         self.0.minter_config()
+    }
+    fn minter_addr(&self) -> String {
+        self.0.minter.to_string()
     }
     fn mintable(&self) -> Option<u64> {
         self.0.mintable()
@@ -572,6 +608,21 @@ impl World for OWorld {
     fn exec_other(&mut self, who: &str, contract: &Addr, msg: &Value) -> bool {
         chain::exec(&mut self.0.app, who, contract, msg, &[]).is_ok()
     }
+    fn update_mint_price(&mut self, who: &str, price: u128) -> StepOut {
+        self.0.run(&OeOp::UpdateMintPrice { who: who.into(), price })
+    }
+    fn update_discount(&mut self, _who: &str, _price: u128) -> Option<StepOut> {
+        None
+    }
+    fn remove_discount(&mut self, _who: &str) -> Option<StepOut> {
+        None
+    }
+    fn update_pal(&mut self, who: &str, limit: u32) -> StepOut {
+        self.0.run(&OeOp::UpdatePerAddressLimit { who: who.into(), limit })
+    }
+    fn sudo_min_price(&mut self, price: u128) {
+        self.0.run(&OeOp::SudoParams { min_price: Some(price), mint_fee_bps: None, airdrop_price: None, airdrop_fee_bps: None, offset: None, max_pal: None, max_token_limit: None, dev: None });
+    }
 }
 
 fn new_world(c: &Case) -> Result<Box<dyn World>, String> {
@@ -608,6 +659,8 @@ struct Pre {
     public_price: (u128, String),
     mintable: Option<u64>,
     pal: u64,
+    /// MintPrice.current_price as the minter reports it (None: the query fails)
+    current_price: Option<(u128, String)>,
 }
 fn q(app: &App, a: &str, m: Value) -> Option<Value> {
     app.wrap().query_wasm_smart::<Value>(Addr::unchecked(a), &m).ok()
@@ -631,7 +684,12 @@ fn read_pre(w: &dyn World) -> Pre {
         public_price,
         mintable: w.mintable(),
         pal: c["per_address_limit"].as_u64().unwrap(),
+        current_price: None,
     };
+    pre.current_price = q(w.app(), &w.minter_addr(), json!({"mint_price": {}})).and_then(|v| {
+        let c = &v["current_price"];
+        Some((c["amount"].as_str()?.parse().ok()?, c["denom"].as_str()?.to_string()))
+    });
     if let Some(a) = wl {
         if let Some(cfg) = q(w.app(), &a, json!({"config": {}})) {
             pre.active_cfg = cfg["is_active"].as_bool();
@@ -657,6 +715,11 @@ fn kind_of(op: &COp) -> &'static str {
         COp::UpdateEnd { .. } => "update_end_time",
         COp::Attach { .. } => "set_whitelist",
         COp::WlAddMember { .. } => "wl_add_member",
+        COp::UpdateMintPrice { .. } => "update_mint_price",
+        COp::UpdateDiscount { .. } => "update_discount_price",
+        COp::RemoveDiscount { .. } => "remove_discount_price",
+        COp::UpdatePal { .. } => "update_per_address_limit",
+        COp::SudoMinPrice { .. } => "sudo_min_price",
     }
 }
 
@@ -718,6 +781,10 @@ pub fn run_case(c: &Case) -> CaseResult {
         match cop {
             COp::At(t) => {
                 w.at(*t);
+                continue;
+            }
+            COp::SudoMinPrice { price } => {
+                w.sudo_min_price(*price);
                 continue;
             }
             COp::WlAddMember { who } => {
@@ -792,6 +859,29 @@ pub fn run_case(c: &Case) -> CaseResult {
                 ));
             }
         }
+        // the price the minter announces to buyers right now: the whitelist's while it is active,
+        // the public one (discount if set) otherwise
+        if pre.wl.is_some() && pre.active_cfg == Some(true) {
+            if let (Some(wp), Some(cp)) = (&pre.wl_price, &pre.current_price) {
+                if wp != cp {
+                    res.violations.push((
+                        "C04:announced-price-not-whitelist-price-while-active".into(),
+                        format!("{}: at {} the attached whitelist is active with price {:?}, MintPrice.current_price is {:?} (public/discount price {:?})", vname, pre.now, wp, cp, pre.public_price),
+                        oi,
+                    ));
+                }
+            }
+        } else if pre.wl.is_none() || pre.active_cfg == Some(false) {
+            if let Some(cp) = &pre.current_price {
+                if *cp != pre.public_price {
+                    res.violations.push((
+                        "C04:announced-price-not-public-price".into(),
+                        format!("{}: at {} no whitelist is active, MintPrice.current_price is {:?}, the public price (discount if set) is {:?}", vname, pre.now, cp, pre.public_price),
+                        oi,
+                    ));
+                }
+            }
+        }
         // ----- run it -----
         let (out, who, funds): (StepOut, String, Vec<(String, u128)>) = match cop {
             COp::Mint { who, funds } | COp::MintArgs { who, funds, .. } | COp::MintP { who, funds, .. } => (w.mint(who, funds, &margs), who.clone(), funds.clone()),
@@ -812,7 +902,17 @@ pub fn run_case(c: &Case) -> CaseResult {
                 }
                 None => continue,
             },
-            COp::At(_) | COp::WlAddMember { .. } => continue,
+            COp::UpdateMintPrice { who, price } => (w.update_mint_price(who, *price), who.clone(), vec![]),
+            COp::UpdateDiscount { who, price } => match w.update_discount(who, *price) {
+                Some(o) => (o, who.clone(), vec![]),
+                None => continue,
+            },
+            COp::RemoveDiscount { who } => match w.remove_discount(who) {
+                Some(o) => (o, who.clone(), vec![]),
+                None => continue,
+            },
+            COp::UpdatePal { who, limit } => (w.update_pal(who, *limit), who.clone(), vec![]),
+            COp::At(_) | COp::WlAddMember { .. } | COp::SudoMinPrice { .. } => continue,
         };
         if !out.is_minter_step {
             continue;
@@ -1411,6 +1511,117 @@ fn set_whitelist_cases(fam: Fam, kind: Kind) -> Vec<Case> {
     v
 }
 
+
+/// feature interactions: a whitelist that is still active after the public start, combined
+/// with every price-affecting admin call available at that moment (discount set / removed
+/// after its cooldown / set again, unit price lowered), a per-address-limit update and a
+/// governance change of the factory minimum; members and non-members offer the whitelist
+/// price, the discount price and the public price after each of them; then the same after
+/// the whitelist has ended (the discount applies from then on)
+fn overlap_cases(fam: Fam, kind: Kind) -> Vec<Case> {
+    let st = |s: T, e: T, p: u128, m: &[&str]| StageSpec { start: s, end: e, price: p, members: m.iter().map(|x| x.to_string()).collect(), stage_limit: None };
+    let h = 3600u64;
+    // vending: the window outlives the 12 h discount cooldown; open edition: it closes before the end time
+    let wend = if fam.oe { T(4500, 0) } else { T(START + 14 * h, 0) };
+    let (stages, tree) = if kind.tiered() {
+        // the second stage straddles the public start
+        (vec![st(T(1000, 0), T(2000, 0), 60, &[M1]), st(T(START - 200, 0), wend, 70, &[M1, M2])], 1usize)
+    } else {
+        (vec![st(T(START - 500, 0), wend, 60, &[M1, M2])], 0usize)
+    };
+    let wlp = stages[tree].price;
+    let spec = WlSpec { kind, stages, limit: 9, leaf_fmt: 1 };
+    let member = |who: &str, p: u128| -> COp {
+        if fam.merkle() && kind.merkle() {
+            mintp(who, p, tree, Some(who))
+        } else {
+            mint(who, p)
+        }
+    };
+    // everybody tries every price that is around
+    let round = |who: &str, prices: &[u128]| -> Vec<COp> {
+        let mut o = vec![];
+        for p in prices {
+            o.push(member(NM, *p));
+        }
+        for p in prices {
+            if *p != wlp {
+                o.push(member(who, *p));
+            }
+        }
+        o.push(member(who, wlp));
+        o
+    };
+    let upd = |who: &str, p: u128| COp::UpdateDiscount { who: who.into(), price: p };
+    let mut v = vec![];
+    let t1 = T(START + 10, 0);
+    let mut ops = vec![attach(CREATOR, 0), at(T(START - 1, 0))];
+    // before the start: members mint, no price update that needs a started sale works
+    ops.extend(round(M1, &[wlp, PUB]));
+    ops.push(upd(CREATOR, 80));
+    ops.push(at(t1));
+    ops.extend(round(M2, &[wlp, PUB]));
+    if fam.oe {
+        // open edition: unit price lowered, per-address limit changed, factory minimum raised above the whitelist price
+        ops.push(COp::UpdateMintPrice { who: CREATOR.into(), price: 90 });
+        ops.extend(round(M1, &[wlp, 90, PUB]));
+        ops.push(COp::UpdatePal { who: CREATOR.into(), limit: 1 });
+        ops.extend(round(M2, &[wlp, 90]));
+        ops.push(COp::SudoMinPrice { price: 75 });
+        ops.extend(round(M1, &[wlp, 90]));
+        ops.push(COp::UpdateMintPrice { who: CREATOR.into(), price: 80 });
+        ops.extend(round(M2, &[wlp, 80, 90]));
+        // the whitelist ends before the end time: the public price applies
+        for t in [wend.plus(-1), wend, wend.plus(1)] {
+            ops.push(at(t));
+            ops.extend(round(M1, &[wlp, 80, 90]));
+        }
+        v.push(base_case(format!("overlap:{}:{}:price-limit-minimum", fam.name(), kind.name()), fam, vec![spec], ops));
+        return v;
+    }
+    // vending: discount set while the whitelist is active
+    ops.push(upd(STRANGER, 80));
+    ops.push(upd(CREATOR, 80));
+    ops.extend(round(M1, &[wlp, 80, PUB]));
+    // unit price lowered below nothing in particular: the discount stays, the whitelist still rules
+    ops.push(COp::UpdateMintPrice { who: CREATOR.into(), price: 90 });
+    ops.extend(round(M2, &[wlp, 80, 90]));
+    // removal needs one hour; a second discount needs twelve
+    ops.push(COp::RemoveDiscount { who: CREATOR.into() });
+    ops.push(at(T(START + 10 + h, -1)));
+    ops.push(COp::RemoveDiscount { who: CREATOR.into() });
+    ops.push(at(T(START + 10 + h, 0)));
+    ops.push(COp::RemoveDiscount { who: STRANGER.into() });
+    ops.push(COp::RemoveDiscount { who: CREATOR.into() });
+    ops.extend(round(M1, &[wlp, 80, 90]));
+    ops.push(COp::UpdatePal { who: CREATOR.into(), limit: 1 });
+    ops.extend(round(M2, &[wlp, 90]));
+    ops.push(COp::SudoMinPrice { price: 75 });
+    ops.extend(round(M1, &[wlp, 90]));
+    ops.push(at(T(START + 10 + 13 * h, -1)));
+    ops.push(upd(CREATOR, 85));
+    ops.push(at(T(START + 10 + 13 * h, 0)));
+    ops.push(upd(CREATOR, 74));
+    ops.push(upd(CREATOR, 85));
+    ops.extend(round(M2, &[wlp, 85, 90]));
+    // the whitelist ends with the discount still set: from now on the discount is the price
+    for t in [wend.plus(-1), wend, wend.plus(1)] {
+        ops.push(at(t));
+        ops.extend(round(M1, &[wlp, 85, 90]));
+    }
+    let mut c = base_case(format!("overlap:{}:{}:discount-price-limit-minimum", fam.name(), kind.name()), fam, vec![spec.clone()], ops);
+    c.num_tokens = 40;
+    v.push(c);
+    // the short one: nothing but start, discount, member
+    v.push(base_case(
+        format!("overlap:{}:{}:discount-then-member", fam.name(), kind.name()),
+        fam,
+        vec![spec],
+        vec![attach(CREATOR, 0), at(t1), upd(CREATOR, 80), member(M1, 80), member(M1, PUB), member(NM, 80), member(M1, wlp), member(NM, wlp)],
+    ));
+    v
+}
+
 /// structured random histories: the clock jumps between boundary instants (+-1ns) of the
 /// case's own schedule; mints, schedule updates and whitelist changes in any order
 fn random_case(rng: &mut Rng, fam: Fam, n: usize, lits: &[u128]) -> Case {
@@ -1453,9 +1664,21 @@ fn random_case(rng: &mut Rng, fam: Fam, n: usize, lits: &[u128]) -> Case {
                 now = t;
                 ops.push(at(t));
             }
-            22..=63 => {
+            58..=63 => {
+                // price-affecting admin calls in between
+                let who = if rng.chance(5, 6) { CREATOR } else { STRANGER };
+                let p = *rng.pick(&[PUB - 10, PUB - 20, 70, 55, 49, PUB]);
+                ops.push(match rng.below(if fam.oe { 3 } else { 5 }) {
+                    0 => COp::UpdateMintPrice { who: who.into(), price: p },
+                    1 => COp::UpdatePal { who: who.into(), limit: rng.range(1, 3) as u32 },
+                    2 => COp::SudoMinPrice { price: *rng.pick(&[50u128, 55, 75]) },
+                    3 => COp::UpdateDiscount { who: who.into(), price: p },
+                    _ => COp::RemoveDiscount { who: who.into() },
+                });
+            }
+            22..=57 => {
                 let who = *rng.pick(&buyers);
-                let prices: Vec<u128> = spec.stages.iter().map(|s| s.price).chain([PUB, 65, PUB - 1]).collect();
+                let prices: Vec<u128> = spec.stages.iter().map(|s| s.price).chain([PUB, 65, PUB - 1, PUB - 10, PUB - 20, 70]).collect();
                 // now and then an amount next to a literal of the contract source
                 let p = if !lits.is_empty() && rng.chance(1, 12) { *rng.pick(lits) } else { *rng.pick(&prices) };
                 if fam.merkle() && rng.chance(2, 3) {
@@ -1544,15 +1767,19 @@ fn corpus(thorough: bool, rng: &mut Rng) -> Vec<Case> {
                     // quick tier: every (variant, kind, shape) keeps the start and end boundaries;
                     // the other boundaries are sampled
                     for c in cs {
-                        let keep = c.label.ends_with(&format!("{:?}", T(START, 0))) || c.label.ends_with(&format!("{:?}", T(END, 0))) || rng.chance(1, 4);
+                        let keep = c.label.ends_with(&format!("{:?}", T(START, 0))) || c.label.ends_with(&format!("{:?}", T(END, 0))) || rng.chance(1, 5);
                         if keep {
                             v.push(c);
                         }
                     }
                 }
             }
-            if thorough || ki == fi % kinds.len() {
+            v.extend(overlap_cases(fam, *kind));
+            if thorough {
                 v.extend(set_whitelist_cases(fam, *kind));
+            } else if ki == fi % kinds.len() {
+                // quick tier: the +1ns neighbours of the old / new whitelist's edges are left to the thorough tier
+                v.extend(set_whitelist_cases(fam, *kind).into_iter().filter(|c| !(c.label.ends_with("+1ns") && !c.label.contains(":start"))));
             } else {
                 // the start boundary of SetWhitelist for every pairing even in the quick tier
                 v.extend(set_whitelist_cases(fam, *kind).into_iter().filter(|c| c.label.contains(":start")));
@@ -1636,7 +1863,10 @@ pub fn run(a: &Args) {
         cl.0 += 1;
         cl.1 += r.steps;
         let mut seen = BTreeSet::new();
-        for (key, what, oi) in r.violations.iter() {
+        // what a buyer was actually charged / allowed comes before what the minter merely announced
+        let mut ordered: Vec<&(String, String, usize)> = r.violations.iter().collect();
+        ordered.sort_by_key(|v| (v.0.starts_with("C04:announced-price"), v.2));
+        for (key, what, oi) in ordered.into_iter() {
             if !seen.insert(key.clone()) {
                 continue;
             }
